@@ -84,3 +84,35 @@ pub fn zz_range_pfx_sym() {
     assert!(r.is_err());
     if let Err(e) = r { assert!(e.is_end_of_input()); }
 }
+
+#[cfg(feature = "half")]
+#[kani::proof]
+#[kani::unwind(16)]
+pub fn zz_tok_1c_first() {
+    let rest: [u8; 3] = kani::any();
+    let buf = [0x1c, rest[0], rest[1], rest[2]];
+    let mut d = Decoder::new(&buf[..]);
+    let r = { let mut t = d.tokens(); t.next() };
+    assert!(matches!(r, Some(Err(_))));
+    assert!(d.position() == 4);
+}
+#[cfg(feature = "half")]
+#[kani::proof]
+#[kani::unwind(16)]
+pub fn zz_tok_1c_datatype() {
+    let rest: [u8; 3] = kani::any();
+    let buf = [0x1c, rest[0], rest[1], rest[2]];
+    let d = Decoder::new(&buf[..]);
+    let r = d.datatype();
+    assert!(matches!(r, Ok(minicbor::data::Type::Unknown(0x1c))));
+}
+#[cfg(feature = "half")]
+#[kani::proof]
+#[kani::unwind(16)]
+pub fn zz_tok_1c_token() {
+    let rest: [u8; 3] = kani::any();
+    let buf = [0x1c, rest[0], rest[1], rest[2]];
+    let mut d = Decoder::new(&buf[..]);
+    let r = d.decode::<minicbor::data::Token>();
+    assert!(r.is_err());
+}
